@@ -60,6 +60,9 @@ RAW_EXPECT = {
     "mixed-positional-formal-call": ("C02", r"r=Int:2 "),
     "return-variable-case": ("C02", r"r=Int:0 "),
     "recursion-stack-overflow": ("C01", r"^child-killed signal="),
+    "fb-omitted-input-reset": ("C02", r"r1=Int:200 r2=\w+:5 "),
+    "fb-input-default-not-applied": ("C02", r"r0=Int:0 "),
+    "fb-call-without-arguments": ("C01", r"^InvalidArgumentCount "),
 }
 
 
